@@ -354,6 +354,37 @@ def run(rep: Report, tier: str) -> None:
     rep.rule("R19.5", "every accepted spelling of a Time_Period is normalised to the one canonical text (two spellings of one period must meet in the duplicate-key check)")
     from sa.checks.c21 import spelling_grid
     spelling_grid(rep, "R19.5", macros, limits, null_clause=True)
+    # ---- R19.7: the nullability a structure declares is the nullability the loaders enforce ----
+    rep.rule("R19.7", "_build_component evaluated over role x declared nullability: an explicit `nullable` is taken as given (false stays false for measures and attributes), a missing "
+                      "one defaults to `role is not Identifier` - the NOT NULL constraint of the input table and the missing-column check are built from it")
+    from sa.e6 import Unmodelled as _U197
+    fb7 = P.func("vtlengine.API._InternalApi._build_component")
+    n7 = 0
+    for role in ("Identifier", "Measure", "Attribute", "ViralAttribute"):
+        for nl in ("absent", True, False):
+            cj: Dict[str, Any] = {"name": "X", "role": role, "type": "Number", "data_type": "Number"}
+            if nl != "absent":
+                cj["nullable"] = nl
+            try:
+                r7 = Interp(P, externals={"_extract_data_type": lambda c: (None, ClassVal("vtlengine.DataTypes.Number")), "VTL_Component": lambda **kw: kw, "Component": lambda **kw: kw}).call(fb7, {"component": cj})
+                got7 = r7.get("nullable") if isinstance(r7, dict) else getattr(r7, "nullable", "<?>")
+            except Raised as e:
+                got7 = f"<raises {getattr(e.exc, 'code', None) or getattr(e.exc, 'kind', '?')}>"
+            except _U197 as e:
+                raise AnalysisError(f"R19.7: _build_component outside the evaluator's language: {e}")
+            want7 = nl if nl != "absent" else role != "Identifier"
+            n7 += 1
+            rep.instance("R19.7", f"nullable/{role}/{nl}", nontrivial=True, sample={"role": role, "declared": nl, "loaded": got7})
+            if got7 is not want7:
+                rep.add(Finding("R19.7", f"R19.7/nullable/{role}/{nl}", fb7.module.rel, fb7.node.lineno, fb7.qualname,
+                                f"a {role} declared with nullable={nl if nl != 'absent' else '<missing>'} is loaded with nullable={got7} (expected {want7}): the input table is created without "
+                                f"(or with) NOT NULL accordingly, so a null or a missing column in a component declared not nullable is accepted instead of raising a DataLoadError"))
+    rep.floor("R19.7 role/nullability combinations", n7, 12)
+    # ---- R19.8: an accepted Date value comes back as the instant that was loaded (shared with C18 R18.7) ----
+    rep.rule("R19.8", "result fetch: a TIMESTAMP column is rendered with its time of day iff the column holds one, sub-second fractions included (the probe's row predicate evaluated on "
+                      "a model table): an accepted `YYYY-MM-DD HH:MM:SS.ffffff` value is not returned as a bare date")
+    from sa.checks.c18 import fetch_time_format as _ftf
+    _ftf(P, rep, "R19.8")
     rep.assumptions = ["DuckDB regexp_matches has search semantics (patterns are anchored explicitly)",
                        "the load regex is applied to the value after vtl_period_normalize (read from _validate_loaded_table)",
                        "DuckDB read_csv with an integral column type rounds fractional literals instead of rejecting them (observed once on the installed DuckDB while writing R19.4)"]
